@@ -20,7 +20,7 @@ from hashlib import md5
 from zope.interface import Interface, implementer
 
 from twisted.cred import error
-from twisted.cred._digest import calcHA1, calcHA2, calcResponse
+from twisted.cred._digest import algorithms, calcHA1, calcHA2, calcResponse
 from twisted.python.compat import nativeString, networkString
 from twisted.python.deprecate import deprecatedModuleAttribute
 from twisted.python.randbytes import secureRandom
@@ -136,6 +136,25 @@ class DigestedCredentials:
         self.realm = realm
         self.fields = fields
 
+    def _canVerify(self):
+        """
+        Check that the response carries every field its digest is computed
+        from and asks for an algorithm and quality of protection that can be
+        computed here.  A response that does not is just a failed login.
+
+        @rtype: C{bool}
+        """
+        fields = self.fields
+        algo = fields.get("algorithm", b"md5").lower()
+        return not (
+            algo not in algorithms
+            or fields.get("response") is None
+            or fields.get("uri") is None
+            or fields.get("nonce") is None
+            or fields.get("qop") == b"auth-int"
+            or (algo == b"md5-sess" and fields.get("cnonce") is None)
+        )
+
     def checkPassword(self, password):
         """
         Verify that the credentials represented by this object agree with the
@@ -143,6 +162,9 @@ class DigestedCredentials:
         response hash represented by this object was generated and comparing
         the results.
         """
+        if not self._canVerify():
+            return False
+
         response = self.fields.get("response")
         uri = self.fields.get("uri")
         nonce = self.fields.get("nonce")
@@ -171,6 +193,9 @@ class DigestedCredentials:
         @param digestHash: A precomputed H(A1) value based on the username,
             realm, and password associate with this credentials object.
         """
+        if not self._canVerify():
+            return False
+
         response = self.fields.get("response")
         uri = self.fields.get("uri")
         nonce = self.fields.get("nonce")
